@@ -6,6 +6,7 @@ mod gen;
 mod node;
 mod probes;
 mod run;
+mod syscell;
 
 use ckb_types::prelude::*;
 use gen::*;
@@ -173,9 +174,9 @@ fn main() {
     let mut samples: Vec<Value> = vec![];
     let mut evaluations = 0u64;
     let shards = 8usize;
-    let header = "From CKB Require Import Tx.Cache.";
+    let header = "From CKB Require Import Tx.Cache Tx.SysCache.";
     let mut files: Vec<CaseFile> = (0..shards)
-        .map(|i| { let mut cf = CaseFile::new(&out, &format!("cases_{:02}", i), header); cf.group("vcache", "vcase", "check_vcase"); cf })
+        .map(|i| { let mut cf = CaseFile::new(&out, &format!("cases_{:02}", i), header); cf.group("vcache", "vcase", "check_vcase"); cf.group("syscache", "sccase", "check_sccase"); cf })
         .collect();
     let mut descs: Vec<BTreeMap<String, Vec<Value>>> = (0..shards).map(|_| BTreeMap::new()).collect();
     if !probes_only {
@@ -225,6 +226,26 @@ fn main() {
             }
         }
     }
+    // SYSTEM_CELL stream (sets the process-wide cache: after everything else)
+    if only.is_none() && !probes_only {
+        match std::panic::catch_unwind(|| syscell::run(seed, thorough)) {
+            Err(p) => {
+                let msg = p.downcast_ref::<String>().cloned().or_else(|| p.downcast_ref::<&str>().map(|s| s.to_string())).unwrap_or_default();
+                viol.push(json!({"what": format!("resolve_transaction panicked in the system-cell stream: {msg}"), "detail": {"stream": "system-cell-cache"}}));
+            }
+            Ok(o) => {
+                viol.extend(o.viol);
+                for (k, v) in o.stats { *stats.entry(k).or_default() += v; }
+                for cf in files.iter_mut() { cf.header.push_str("\n"); cf.header.push_str(&o.header); }
+                for (i, (case, desc)) in o.cases.into_iter().enumerate() {
+                    let sh = i % shards;
+                    files[sh].push(1, case);
+                    descs[sh].entry("syscache".into()).or_default().push(desc);
+                    evaluations += 1;
+                }
+            }
+        }
+    }
     for (i, cf) in files.iter().enumerate() {
         cf.write().unwrap();
         fs::write(out.join(format!("cases_{:02}.json", i)), serde_json::to_string(&descs[i]).unwrap()).unwrap();
@@ -234,7 +255,7 @@ fn main() {
     let summary = json!({
         "property": "C14", "seed": seed,
         "evaluations": evaluations, "distinct_nontrivial": distinct.len(),
-        "rule": "histories generated on a real on-disk node (extensions with fee-paying transactions incl. absolute/relative block-number since, proposals, uncles; competing branches that take over and re-commit pending transactions, sometimes with other witnesses; truncations; restarts; injected invalid blocks: a proposed, spendable transaction whose since is not yet met / a transaction with an input dead on that branch), recorded as a step list and replayed on 5 nodes that differ only in caching (all caches 0 = reference; defaults cold; all caches 1; verification cache pre-warmed with the correct entry of every (transaction, witnesses); verification cache poisoned under tx-hash and other-witness keys). Compared with the reference: verdict of every delivery, tip, every block's verification record (verified, txs_fees, cycles, txs_sizes, total difficulty), and at every reorganisation/restart/truncation/end a query battery over every stored block (header, uncles, proposals, extension, tx hashes, get_block, BlockExt, number) twice through store and snapshot, every transaction (transaction info) and every live cell (data, data hash); answers are also compared with the stored content directly. evaluations = (history, configuration) pairs, each also evaluated by the Coq model; distinct = distinct histories (each >= 5 steps)",
+        "rule": "histories generated on a real on-disk node (extensions with fee-paying transactions incl. absolute/relative block-number since, proposals, uncles; competing branches that take over and re-commit pending transactions, sometimes with other witnesses; truncations; restarts; injected invalid blocks: a proposed, spendable transaction whose since is not yet met / a transaction with an input dead on that branch), recorded as a step list and replayed on 5 nodes that differ only in caching (all caches 0 = reference; defaults cold; all caches 1; verification cache pre-warmed with the correct entry of every (transaction, witnesses); verification cache poisoned under tx-hash and other-witness keys). Compared with the reference: verdict of every delivery, tip, every block's verification record (verified, txs_fees, cycles, txs_sizes, total difficulty), and at every reorganisation/restart/truncation/end a query battery over every stored block (header, uncles, proposals, extension, tx hashes, get_block, BlockExt, number) twice through store and snapshot, every transaction (transaction info) and every live cell (data, data hash); answers are also compared with the stored content directly. Last stream: resolve_transaction and ResolvedTransaction::check on transactions whose cell deps mix the cached system deps (code cells and dep groups, also repeated or with the other dep type), user dep groups of 0..2048 members, dead / unknown / unparsable deps, with a total expansion aimed at MAX_DEP_EXPANSION_LIMIT +-3, before and after setup_system_cell_cache on a synthetic genesis; cold and warm outcomes must be equal and both are recomputed by the Coq model. evaluations = (history, configuration) pairs plus system-cell transactions, each also evaluated by the Coq model; distinct = distinct histories (each >= 5 steps)",
         "distribution": stats, "samples": samples,
         "impl_violations": viol,
         "extra_coverage": {"directed_probes": probe_results, "node_configurations": CONFIGS.iter().map(config_json).collect::<Vec<_>>()},
